@@ -17,26 +17,410 @@ def isMacroStatTokType (t : TokenType) : Bool :=
 def isMacroQuoteCallTokType (t : TokenType) : Bool :=
   TokenType.macroQuoteCallRange.1.toNat ≤ t.toNat && t.toNat ≤ TokenType.macroQuoteCallRange.2.toNat
 
-/-- STUB: `is_macro_stat(input)` where `input` starts with `%` -/
-def isMacroStat (_r : List Char) : Bool := false
+/-- `TokenTypeMacroCallOrStat::try_from(t).is_ok()`: the subset `MacroIdentifier..=KwmRun` -/
+def isMacroCallOrStatTokType (t : TokenType) : Bool :=
+  TokenType.subsetStart.toNat ≤ t.toNat && t.toNat ≤ TokenType.subsetEnd.toNat
 
-/-- STUB: `is_macro_eval_mnemonic(chars)` → (token type, extra chars besides the first) -/
-def isMacroEvalMnemonic (_r : List Char) : Option TokenType × Nat := (none, 0)
+/-- `[a, b, …].contains(&t)` / an or-pattern of a `match` arm -/
+def tokOneOf (t : TokenType) (l : List TokenType) : Bool := l.contains t
 
-/-- STUB -/
-def lexMacroIdentifier (_cfg : Cfg) (_allowMacroLabel : Bool) : Prog Unit :=
-  unmodelled "lex_macro_identifier"
+/-! ## `macro.rs` -/
 
-/-- STUB -/
-def lexMacroCall (_cfg : Cfg) (_allowQuoteCall _allowStatToFollow : Bool) : Prog MacroKwType := do
-  unmodelled "lex_macro_call"
-  pure .none
+/-- `is_macro_eval_logical_op` -/
+def isMacroEvalLogicalOp (t : TokenType) : Bool :=
+  tokOneOf t [.LT, .KwLT, .LE, .KwLE, .ASSIGN, .KwEQ, .HASH, .KwIN, .NE, .KwNE, .GT, .KwGT, .GE, .KwGE]
 
-/-- STUB -/
-def dispatchMacroDo (_cfg : Cfg) (_c : Char) : Prog Unit := unmodelled "dispatch_macro_do"
+/-- `needs_macro_sep` (feature `macro_sep`) -/
+def needsMacroSep (prevTokenType : Option TokenType) (tokType : TokenType) : Bool :=
+  !(match prevTokenType with
+    | none => true
+    | some p => tokOneOf p [.SEMI, .MacroLabel, .KwmThen, .KwmElse])
+  && tokOneOf tokType [
+      .MacroLabel, .KwmAbort, .KwmCopy, .KwmDisplay, .KwmGlobal, .KwmGoto, .KwmInput, .KwmLocal,
+      .KwmPut, .KwmReturn, .KwmSymdel, .KwmSyscall, .KwmSysexec, .KwmSyslput, .KwmSysmacdelete,
+      .KwmSysmstoreclear, .KwmSysrput, .KwmWindow, .KwmMacro, .KwmMend, .KwmLet, .KwmIf, .KwmElse,
+      .KwmDo, .KwmEnd]
 
-/-- STUB -/
-def dispatchMacroLocalGlobal (_cfg : Cfg) (_c : Char) (_isLocal : Bool) : Prog Unit :=
-  unmodelled "dispatch_macro_local_global"
+/-- `lex_macro_call_stat_or_label(cursor)` as a function of the text *after* the `%`:
+token type and number of chars of the identifier (what the cursor consumed:
+`eat_while isIdentContinue`). `source_view.get(..pending_ident_len)` is a prefix of the
+view cut at a char boundary, so its `ok_or(InternalErrorOutOfBounds)` cannot fire; the
+`debug_assert!` on the first char is modelled at the two call sites. -/
+def lexMacroCallStatOrLabel (r : List Char) : Except ErrorKind (TokenType × Nat) :=
+  let ident := r.takeWhile isIdentContinue
+  let isAsciiId := ident.all isAscii
+  let pendingIdentLen := utf8Len ident
+  if !isAsciiId || pendingIdentLen > TokenType.MAX_MKEYWORDS_LEN then
+    .ok (.MacroIdentifier, ident.length)
+  else
+    match lookupKw TokenType.MKEYWORDS (upperStr ident) with
+    | none => .ok (.MacroIdentifier, ident.length)
+    | some t =>
+      if isMacroCallOrStatTokType t then .ok (t, ident.length)
+      else .error .InternalErrorOutOfBounds
+
+/-- `is_macro_eval_mnemonic(chars)` → (token type, extra chars besides the first); the list
+starts at the first letter. (The `debug_assert!` on the start char holds at both call sites:
+they are `match` arms on exactly these letters.) -/
+def isMacroEvalMnemonic (r : List Char) : Option TokenType × Nat :=
+  match r with
+  | [] => (none, 0)
+  | [_] => (none, 0)
+  | startChar :: nextChar :: tl =>
+    let secondNextChar := tl.head?.getD ' '
+    let secondNextNonId := !isXidContinue secondNextChar
+    let thirdNextChar := (tl.drop 1).head?.getD ' '
+    let ci (c lo up : Char) : Bool := c == lo || c == up
+    if ci startChar 'e' 'E' && ci nextChar 'q' 'Q' && secondNextNonId then (some .KwEQ, 1)
+    else if ci startChar 'i' 'I' && ci nextChar 'n' 'N' && secondNextNonId then (some .KwIN, 1)
+    else if ci startChar 'o' 'O' && ci nextChar 'r' 'R' && secondNextNonId then (some .KwOR, 1)
+    else if ci startChar 'l' 'L' && ci nextChar 't' 'T' && secondNextNonId then (some .KwLT, 1)
+    else if ci startChar 'l' 'L' && ci nextChar 'e' 'E' && secondNextNonId then (some .KwLE, 1)
+    else if ci startChar 'g' 'G' && ci nextChar 't' 'T' && secondNextNonId then (some .KwGT, 1)
+    else if ci startChar 'g' 'G' && ci nextChar 'e' 'E' && secondNextNonId then (some .KwGE, 1)
+    else if ci startChar 'a' 'A' && ci nextChar 'n' 'N' && !secondNextNonId
+            && ci secondNextChar 'd' 'D' then
+      if isXidContinue thirdNextChar then (none, 0) else (some .KwAND, 2)
+    else if ci startChar 'n' 'N' && ci nextChar 'e' 'E' && secondNextNonId then (some .KwNE, 1)
+    else if ci startChar 'n' 'N' && ci nextChar 'o' 'O' && !secondNextNonId
+            && ci secondNextChar 't' 'T' then
+      if isXidContinue thirdNextChar then (none, 0) else (some .KwNOT, 2)
+    else (none, 0)
+
+/-- `is_macro_stat(input)` where `input` starts with `%` (both the `debug_assert!` and the
+slice `input[1..]` need a first char; the only call site has peeked `%`). -/
+def isMacroStat (r : List Char) : Bool :=
+  let ident := (r.drop 1).takeWhile isIdentContinue
+  let isAsciiId := ident.all isAscii
+  let pendingIdentLen := utf8Len ident
+  if !isAsciiId || pendingIdentLen > TokenType.MAX_MKEYWORDS_LEN then false
+  else
+    match lookupKw TokenType.MKEYWORDS (upperStr ident) with
+    | some t => isMacroStatTokType t
+    | none => false
+
+/-! ## the `expect_*` pre-loaders (`mod.rs`) -/
+
+/-- `maybe_expect_macro_call_args_or_label` -/
+def maybeExpectMacroCallArgsOrLabel (allowMacroLabel : Bool) : Prog Unit := do
+  perform .checkpoint
+  pushMode (.maybeMacroCallArgsOrLabel allowMacroLabel)
+  pushMode .wsOrCStyleCommentOnly
+
+/-- `expect_macro_str_call_args` -/
+def expectMacroStrCallArgs (maskMacro : Bool) : Prog Unit := do
+  pushMode (.expectSymbol .RPAREN .HIDDEN)
+  pushMode (.macroStrQuotedExpr maskMacro 0)
+  pushMode (.expectSymbol .LPAREN .HIDDEN)
+  pushMode .wsOrCStyleCommentOnly
+
+/-- `expect_eval_call_args` -/
+def expectEvalCallArgs (isSysevalf : Bool) : Prog Unit := do
+  pushMode (.expectSymbol .RPAREN .DEFAULT)
+  pushMode (.macroEval
+    (EvalFlags.new
+      (if isSysevalf then .float else .integer)
+      (if isSysevalf then .macroArg else .none)
+      false
+      false
+      false)
+    0)
+  pushMode .wsOrCStyleCommentOnly
+  pushMode (.expectSymbol .LPAREN .DEFAULT)
+  pushMode .wsOrCStyleCommentOnly
+
+/-- `expect_scan_or_substr_call_args` -/
+def expectScanOrSubstrCallArgs (isScan : Bool) : Prog Unit := do
+  pushMode (.expectSymbol .RPAREN .DEFAULT)
+  pushMode (.macroEval
+    (EvalFlags.new
+      .integer
+      (if isScan then .macroArg else .singleEvalExpr)
+      false
+      false
+      true)
+    0)
+  pushMode .wsOrCStyleCommentOnly
+  pushMode (.expectSymbol .COMMA .DEFAULT)
+  pushMode (.macroCallValue (ArgFlags.new .builtInMacro false true) 0)
+  pushMode .wsOrCStyleCommentOnly
+  pushMode (.expectSymbol .LPAREN .DEFAULT)
+  pushMode .wsOrCStyleCommentOnly
+
+/-- `expect_builtin_macro_call_args` -/
+def expectBuiltinMacroCallArgs : Prog Unit := do
+  pushMode (.expectSymbol .RPAREN .DEFAULT)
+  pushMode (.macroCallValue (ArgFlags.new .builtInMacro true true) 0)
+  pushMode .wsOrCStyleCommentOnly
+  pushMode (.expectSymbol .LPAREN .DEFAULT)
+  pushMode .wsOrCStyleCommentOnly
+
+/-- `expect_builtin_macro_call_one_arg_masking` -/
+def expectBuiltinMacroCallOneArgMasking : Prog Unit := do
+  pushMode (.expectSymbol .RPAREN .DEFAULT)
+  pushMode (.macroCallValue (ArgFlags.new .builtInMacro false false) 0)
+  pushMode .wsOrCStyleCommentOnly
+  pushMode (.expectSymbol .LPAREN .DEFAULT)
+  pushMode .wsOrCStyleCommentOnly
+
+/-- `expect_builtin_macro_call_named_args` -/
+def expectBuiltinMacroCallNamedArgs : Prog Unit := do
+  pushMode (.expectSymbol .RPAREN .DEFAULT)
+  pushMode (.macroCallArgOrValue (ArgFlags.new .macroCall true true))
+  pushMode .wsOrCStyleCommentOnly
+  pushMode (.expectSymbol .LPAREN .DEFAULT)
+  pushMode .wsOrCStyleCommentOnly
+
+/-- `expect_sysfunc_macro_call_args` -/
+def expectSysfuncMacroCallArgs : Prog Unit := do
+  pushMode (.expectSymbol .RPAREN .DEFAULT)
+  pushMode .maybeTailMacroArgValue
+  pushMode .wsOrCStyleCommentOnly
+  pushMode (.expectSymbol .RPAREN .DEFAULT)
+  pushMode (.macroEval (EvalFlags.new .float .evalExpr false false true) 0)
+  pushMode .wsOrCStyleCommentOnly
+  pushMode (.expectSymbol .LPAREN .DEFAULT)
+  pushMode .wsOrCStyleCommentOnly
+  pushMode (.macroNameExpr false (some .MissingSysfuncFuncName))
+  pushMode .wsOrCStyleCommentOnly
+  pushMode (.expectSymbol .LPAREN .DEFAULT)
+  pushMode .wsOrCStyleCommentOnly
+
+/-- `expect_macro_until_while_stat_args` -/
+def expectMacroUntilWhileStatArgs : Prog Unit := do
+  pushMode .expectSemiOrEOF
+  pushMode .wsOrCStyleCommentOnly
+  pushMode (.expectSymbol .RPAREN .DEFAULT)
+  pushMode (.macroEval (EvalFlags.new .integer .none false false false) 0)
+  pushMode .wsOrCStyleCommentOnly
+  pushMode (.expectSymbol .LPAREN .DEFAULT)
+  pushMode .wsOrCStyleCommentOnly
+
+/-- `expect_macro_let_stat` -/
+def expectMacroLetStat (errType : ErrorKind) : Prog Unit := do
+  pushMode .expectSemiOrEOF
+  pushMode .macroSemiTerminatedTextExpr
+  pushMode .wsOrCStyleCommentOnly
+  pushMode (.expectSymbol .ASSIGN .DEFAULT)
+  pushMode .wsOrCStyleCommentOnly
+  pushMode (.macroNameExpr false (some errType))
+  pushMode .wsOrCStyleCommentOnly
+
+/-- `expect_macro_name_then_opts` -/
+def expectMacroNameThenOpts : Prog Unit := do
+  pushMode .expectSemiOrEOF
+  pushMode .macroStatOptionsTextExpr
+  pushMode .wsOrCStyleCommentOnly
+  pushMode (.expectSymbol .FSLASH .DEFAULT)
+  pushMode .wsOrCStyleCommentOnly
+  pushMode (.macroNameExpr false (some .InvalidOrOutOfOrderStatement))
+  pushMode .wsOrCStyleCommentOnly
+
+/-- `expect_syscall_call_and_args` -/
+def expectSyscallCallAndArgs : Prog Unit := do
+  pushMode .expectSemiOrEOF
+  pushMode .wsOrCStyleCommentOnly
+  pushMode (.expectSymbol .RPAREN .DEFAULT)
+  pushMode (.macroEval (EvalFlags.new .float .evalExpr false false true) 0)
+  pushMode .wsOrCStyleCommentOnly
+  pushMode (.expectSymbol .LPAREN .DEFAULT)
+  pushMode .wsOrCStyleCommentOnly
+  pushMode (.macroNameExpr false (some .MissingSyscallRoutineName))
+  pushMode .wsOrCStyleCommentOnly
+
+/-! ## `dispatch_macro_call_or_stat` -/
+
+/-- the `#[cfg(feature = "macro_sep")]` block at the top of `dispatch_macro_call_or_stat`.
+`self.mode_stack.last()` is a plain read (no defensive push), hence `modeDepth` first. -/
+def maybeEmitMacroSepBeforeKw (kwTokType : TokenType) : Prog Unit := do
+  let prev ← perform .lastDefaultTok
+  if needsMacroSep prev kwTokType then
+    let notMasked ← (do
+      if (← perform .modeDepth) == 0 then pure true
+      else
+        match (← mode) with
+        | .stringExpr _ | .macroCallArgOrValue _ | .macroCallValue _ _ => pure false
+        | _ => pure true)
+    if notMasked then emitD .MacroSep
+
+/-- `dispatch_macro_call_or_stat`. `kwTokType` ranges over the Rust subset enum
+`TokenTypeMacroCallOrStat` (`MacroIdentifier..=KwmRun`); the arms below cover it exactly,
+in the order of the Rust `match`. -/
+def dispatchMacroCallOrStat (cfg : Cfg) (kwTokType : TokenType) (allowMacroLabel : Bool) : Prog Unit := do
+  if cfg.macroSep then maybeEmitMacroSepBeforeKw kwTokType
+  emit (if tokOneOf kwTokType [.KwmStr, .KwmNrStr] then .HIDDEN else .DEFAULT) kwTokType
+  if tokOneOf kwTokType [.KwmStr, .KwmNrStr] then
+    expectMacroStrCallArgs (kwTokType == .KwmNrStr)
+  else if tokOneOf kwTokType [.KwmEval, .KwmSysevalf] then
+    expectEvalCallArgs (kwTokType == .KwmSysevalf)
+  else if tokOneOf kwTokType [.KwmScan, .KwmQScan, .KwmKScan, .KwmQKScan] then
+    expectScanOrSubstrCallArgs true
+  else if tokOneOf kwTokType [.KwmSubstr, .KwmQSubstr, .KwmKSubstr, .KwmQKSubstr] then
+    expectScanOrSubstrCallArgs false
+  else if tokOneOf kwTokType [
+      .KwmDatatyp, .KwmLowcase, .KwmKLowcase, .KwmCmpres, .KwmQCmpres, .KwmKCmpres, .KwmQKCmpres,
+      .KwmLeft, .KwmQLeft, .KwmKLeft, .KwmQKLeft, .KwmTrim, .KwmQTrim, .KwmKTrim, .KwmQKTrim] then
+    expectBuiltinMacroCallArgs
+  else if tokOneOf kwTokType [
+      .KwmIndex, .KwmKIndex, .KwmLength, .KwmKLength, .KwmQLowcase, .KwmQKLowcase, .KwmUpcase,
+      .KwmKUpcase, .KwmQUpcase, .KwmQKUpcase, .KwmSysmexecname, .KwmSysprod, .KwmQuote, .KwmNrQuote,
+      .KwmBquote, .KwmNrBquote, .KwmSuperq, .KwmUnquote, .KwmSymExist, .KwmSymGlobl, .KwmSymLocal,
+      .KwmSysget, .KwmSysmacexec, .KwmSysmacexist] then
+    expectBuiltinMacroCallOneArgMasking
+  else if tokOneOf kwTokType [.KwmCompstor, .KwmValidchs, .KwmVerify, .KwmKVerify] then
+    expectBuiltinMacroCallNamedArgs
+  else if kwTokType == .MacroIdentifier then
+    maybeExpectMacroCallArgsOrLabel allowMacroLabel
+  else if kwTokType == .KwmSysmexecdepth then
+    pure ()
+  else if tokOneOf kwTokType [.KwmSysfunc, .KwmQSysfunc] then
+    expectSysfuncMacroCallArgs
+  else if tokOneOf kwTokType [.KwmInclude, .KwmList, .KwmThen, .KwmElse] then
+    pushMode .wsOrCStyleCommentOnly
+  else if tokOneOf kwTokType [.KwmReturn, .KwmRun, .KwmSysmstoreclear] then
+    pushMode .expectSemiOrEOF
+    pushMode .wsOrCStyleCommentOnly
+  else if kwTokType == .KwmEnd then
+    pushMode .expectSemiOrEOF
+    pushMode .wsOrCStyleCommentOnly
+    perform .popPending
+  else if tokOneOf kwTokType [.KwmPut, .KwmSysexec] then
+    pushMode .expectSemiOrEOF
+    pushMode .macroSemiTerminatedTextExpr
+    pushMode .wsOrCStyleCommentOnly
+  else if tokOneOf kwTokType [
+      .KwmAbort, .KwmDisplay, .KwmGoto, .KwmInput, .KwmSymdel, .KwmSyslput, .KwmSysrput,
+      .KwmWindow] then
+    pushMode .expectSemiOrEOF
+    pushMode .macroStatOptionsTextExpr
+    pushMode .wsOrCStyleCommentOnly
+  else if kwTokType == .KwmMend then
+    pushMode .expectSemiOrEOF
+    pushMode .macroStatOptionsTextExpr
+    pushMode .wsOrCStyleCommentOnly
+    perform .nestDec
+    perform .popPending
+  else if kwTokType == .KwmDo then
+    pushMode .macroDo
+    pushMode .wsOrCStyleCommentOnly
+    let curPendingStat ← perform .pendingStat
+    perform (.pushPending curPendingStat)
+  else if tokOneOf kwTokType [.KwmTo, .KwmBy] then
+    pushMode .expectSemiOrEOF
+    pushMode (.macroEval (EvalFlags.new .integer .none (kwTokType == .KwmTo) true false) 0)
+    pushMode .wsOrCStyleCommentOnly
+  else if tokOneOf kwTokType [.KwmUntil, .KwmWhile] then
+    expectMacroUntilWhileStatArgs
+  else if kwTokType == .KwmLet then
+    expectMacroLetStat .InvalidMacroLetVarName
+  else if tokOneOf kwTokType [.KwmLocal, .KwmGlobal] then
+    pushMode (.macroLocalGlobal (kwTokType == .KwmLocal))
+    pushMode .wsOrCStyleCommentOnly
+  else if kwTokType == .KwmIf then
+    pushMode (.macroEval (EvalFlags.new .integer .none true true false) 0)
+    pushMode .wsOrCStyleCommentOnly
+  else if tokOneOf kwTokType [.KwmCopy, .KwmSysmacdelete] then
+    expectMacroNameThenOpts
+  else if kwTokType == .KwmMacro then
+    pushMode .expectSemiOrEOF
+    pushMode .macroStatOptionsTextExpr
+    pushMode .wsOrCStyleCommentOnly
+    pushMode .maybeMacroDefArgs
+    pushMode .wsOrCStyleCommentOnly
+    pushMode .macroDefName
+    pushMode .wsOrCStyleCommentOnly
+    perform .nestInc
+    perform (.pushPending false)
+  else if kwTokType == .KwmSyscall then
+    expectSyscallCallAndArgs
+  else
+    -- not a value of `TokenTypeMacroCallOrStat`: excluded by the Rust type
+    abort "unreachable: dispatch_macro_call_or_stat"
+
+/-! ## `lex_macro_call`, `lex_macro_identifier` -/
+
+/-- `lex_macro_call` -/
+def lexMacroCall (cfg : Cfg) (allowQuoteCall allowStatToFollow : Bool) : Prog MacroKwType := do
+  dbg cfg (peekIs '%') "lex_macro_call: peek == '%'"
+  if !isUnicodeNameStart (← peekNext) then return .none
+  -- `la_cursor = self.cursor.clone(); la_cursor.advance()`
+  let la := (← rest).drop 1
+  dbg cfg (pure (optAny la.head? isUnicodeNameStart)) "lex_macro_call_stat_or_label: first char"
+  let (tokType, advBy) ← (do
+    match lexMacroCallStatOrLabel la with
+    | .ok x => pure x
+    | .error err => do emitError err; pure (TokenType.MacroIdentifier, 0))
+  if !isMacroStatTokType tokType then
+    if !allowQuoteCall && isMacroQuoteCallTokType tokType then return .none
+    advanceBy (advBy + 1)
+    dispatchMacroCallOrStat cfg tokType false
+    return .macroCall
+  if !allowStatToFollow then emitError .OpenCodeRecursionError
+  pure .macroStat
+
+/-- `lex_macro_identifier` -/
+def lexMacroIdentifier (cfg : Cfg) (allowMacroLabel : Bool) : Prog Unit := do
+  dbg cfg (peekIs '%') "lex_macro_identifier: peek == '%'"
+  dbg cfg (do pure (isUnicodeNameStart (← peekNext))) "lex_macro_identifier: peek_next is name start"
+  advance_
+  -- `lex_macro_call_stat_or_label(&mut self.cursor)`: the cursor is consumed by the
+  -- `eat_while` before any result (or error) is produced
+  dbg cfg (do pure (optAny (← peek) isUnicodeNameStart)) "lex_macro_call_stat_or_label: first char"
+  let res := lexMacroCallStatOrLabel (← rest)
+  eatWhile isIdentContinue
+  let kwTokType ← (do
+    match res with
+    | .ok (t, _) => pure t
+    | .error err => do emitError err; pure TokenType.MacroIdentifier)
+  dispatchMacroCallOrStat cfg kwTokType allowMacroLabel
+
+/-! ## `dispatch_macro_do`, `dispatch_macro_local_global` -/
+
+/-- `dispatch_macro_do` -/
+def dispatchMacroDo (cfg : Cfg) (nextChar : Char) : Prog Unit := do
+  dbg cfg (do pure ((← perform .lastDefaultTok) == some .KwmDo)) "dispatch_macro_do: last default token is KwmDo"
+  popMode
+  if nextChar == ';' then
+    startToken
+    advance_
+    emitD .SEMI
+    pushMode .wsOrCStyleCommentOnly
+  else if nextChar == '%' && isUnicodeNameStart (← peekNext) then
+    startToken
+    lexMacroIdentifier cfg false
+    let notUntilWhile := match (← lastTokTy) with
+      | some ty => !tokOneOf ty [.KwmUntil, .KwmWhile]
+      | none => false
+    if notUntilWhile then
+      pushMode (.macroEval (EvalFlags.new .integer .none true true false) 0)
+      pushMode .wsOrCStyleCommentOnly
+      pushMode (.expectSymbol .ASSIGN .DEFAULT)
+      pushMode .wsOrCStyleCommentOnly
+      pushMode (.macroNameExpr true none)
+  else
+    pushMode (.macroEval (EvalFlags.new .integer .none true true false) 0)
+    pushMode .wsOrCStyleCommentOnly
+    pushMode (.expectSymbol .ASSIGN .DEFAULT)
+    pushMode .wsOrCStyleCommentOnly
+    pushMode (.macroNameExpr false (some .UnexpectedSemiInDoLoop))
+
+/-- `dispatch_macro_local_global` -/
+def dispatchMacroLocalGlobal (cfg : Cfg) (nextChar : Char) (isLocal : Bool) : Prog Unit := do
+  dbg cfg (do
+      let t ← perform .lastDefaultTok
+      pure (t == some .KwmLocal || t == some .KwmGlobal))
+    "dispatch_macro_local_global: last default token is KwmLocal/KwmGlobal"
+  popMode
+  if nextChar == '/' then
+    startToken
+    advance_
+    emitD .FSLASH
+    expectMacroLetStat .InvalidMacroLocalGlobalReadonlyVarName
+    pushMode (.macroNameExpr false
+      (some (if isLocal then .MissingMacroLocalReadonlyKw else .MissingMacroGlobalReadonlyKw)))
+    pushMode .wsOrCStyleCommentOnly
+  else
+    pushMode .expectSemiOrEOF
+    pushMode .macroStatOptionsTextExpr
 
 end SasLexer
